@@ -2,6 +2,7 @@ package props
 
 import (
 	"fmt"
+	mbits "math/bits"
 	"sort"
 
 	"github.com/openacid/low/bitmap"
@@ -43,6 +44,7 @@ func init() {
 		Level:  "exploration",
 		Rule: "E1 + depth-bounded E2: (of) every subset of the 11 boundary positions {0,1,62,63,64,65,127,128,129,191,192} × n in {absent,-5,0,1,63,64,65,128,129,193,300}: word count and exact bit set of Of, ToArray(Of(l)) = l, Of(ToArray(b)) = b up to trailing zero words, and Get/Get1 inside plus SafeGet/SafeGet1 at every probe in [-70, 64·words+70); " +
 			"(of, far) every subset of {0,63,64,4095,4096,4097,65535,65536,2^20-1,2^20} × 6 sizes with probes around every position and end; (ofmany) every sequence of ≤3 segments (positions ⊂ {0,1,63,64,65}, size in {0,1,63,64,65,130}; positions ≥ size included, so the shifted concatenation need not be ascending) whose shifted bits all fit into the word count the statement gives, against the set model and that word count; " +
+			"(giant, 64-bit builds) the top of the int32 position range: Of on 12 (positions, n) combinations whose last bit or size lies within 65 of MaxInt32 (bitmaps of 2^25-1 and 2^25 words), with ToArray on two of them, Get/SafeGet probes next to every bit and SafeGet at MinInt32, and OfMany / a Builder whose running offset ends 50 below MaxInt32; reference arithmetic in int64; " +
 			"(builder) every sequence of ≤3 operations over the 216-operation alphabet (and every sequence of 4..R operations over a 10-operation sub-alphabet) {Extend(those 192 segments), Set(pos in {0,1,63,64,65,200}, value in 0..3)} executed on a real Builder from NewBuilder(0) and NewBuilder(256) (depth ≤2 also from NewBuilder(64) and NewBuilder(130)), with a second Builder extended and set between the steps (objects must not share state): set bits, Offset, capacity for every bit, and exact equality with the reference Of for Extend-only histories with ascending positions. A case is one call / one history; non-trivial when at least one bit is set.",
 		Assumptions: []string{"positions beyond 300 and longer histories are not enumerated; non-ascending lists are outside Of's and OfMany's statement"},
 		Run:         c12Run,
@@ -554,6 +556,34 @@ func c12Run(c *mc.Ctx) {
 		c.Count(evals, nontriv)
 		c.Add("probe_calls", probes*4)
 	})
+	// (giant) the top of the int32 position range: bitmaps of 2^25-1 and 2^25 words (256 MiB)
+	if mbits.UintSize == 64 {
+		gs := c12Giants()
+		c.Expect(int64(len(gs)) + 2)
+		c.Par(len(gs)+2, func(gi int) {
+			switch {
+			case gi < len(gs):
+				g := gs[gi]
+				probeFlag := int32(0)
+				if g.toArray {
+					probeFlag = 1
+				}
+				if got, want := c12GiantOne(g.pos, g.hasN, g.n, g.toArray); got != want {
+					c.Fail(7<<50|int64(gi), "OfGiant", "Of/giant", c12Case{Pos: g.pos, HasN: g.hasN, N: g.n, Probe: probeFlag}, got, want)
+				}
+			case gi == len(gs):
+				if got, want := c12GiantMany("OfMany"); got != want {
+					c.Fail(7<<50|int64(gi), "OfManyGiant", "OfMany/giant", c12Case{Segs: []c12Seg{}}, got, want)
+				}
+			default:
+				if got, want := c12GiantMany("Builder"); got != want {
+					c.Fail(7<<50|int64(gi), "BuilderGiant", "Builder/giant", c12Case{}, got, want)
+				}
+			}
+			c.Count(1, 1)
+			c.Add("giant_bitmap_cases", 1)
+		})
+	}
 	// (ofmany)
 	segs := c12Segments()
 	ns := len(segs)
@@ -699,7 +729,160 @@ func c12Run(c *mc.Ctx) {
 	c.ForceSample(map[string]interface{}{"fn": "Builder", "prealloc": 256, "ops": []c12Op{{Op: "extend", Pos: []int32{1, 65}, Size: 63}, {Op: "set", At: 200, Value: 3}}})
 }
 
+// ---- the top of the int32 position range (64-bit builds): bitmaps of up to 2^25 words
+
+// c12SparseBits lists the set bits of a long, mostly empty bitmap (int64 positions).
+func c12SparseBits(w []uint64) []int64 {
+	var out []int64
+	for i, x := range w {
+		for x != 0 {
+			out = append(out, int64(i)*64+int64(mbits.TrailingZeros64(x)))
+			x &= x - 1
+		}
+	}
+	return out
+}
+
+// c12GiantOne judges Of (and optionally ToArray, Get*, SafeGet*) for positions at
+// the top of int32, with all reference arithmetic in int64.
+func c12GiantOne(pos []int32, hasN bool, n int32, withToArray bool) (got, want string) {
+	bitsWanted := int64(0)
+	if hasN {
+		bitsWanted = int64(n)
+	}
+	if len(pos) > 0 && int64(pos[len(pos)-1])+1 > bitsWanted {
+		bitsWanted = int64(pos[len(pos)-1]) + 1
+	}
+	if bitsWanted < 0 {
+		bitsWanted = 0
+	}
+	wantWords := int((bitsWanted + 63) / 64)
+	wantBits := fmt.Sprint(pos)
+	if len(pos) == 0 {
+		wantBits = "[]"
+	}
+	w, p := of(pos, hasN, n)
+	if p != "" {
+		return "Of: " + p, fmt.Sprintf("Of: %d words with bits %s", wantWords, wantBits)
+	}
+	have := c12SparseBits(w)
+	hb := "[]"
+	if len(have) > 0 {
+		hb = fmt.Sprint(have)
+	}
+	if len(w) != wantWords || hb != wantBits {
+		return fmt.Sprintf("Of: %d words with bits %s", len(w), hb), fmt.Sprintf("Of: %d words with bits %s", wantWords, wantBits)
+	}
+	for _, i := range pos {
+		for d := int64(-1); d <= 1; d++ {
+			j := int64(i) + d
+			if j < 0 || j >= 64*int64(len(w)) || j > 1<<31-1 {
+				continue
+			}
+			var b uint64
+			for _, x := range pos {
+				if int64(x) == j {
+					b = 1
+				}
+			}
+			o := probe(w, int32(j), true)
+			wo := c12Probe{get: b << uint(j&63), get1: b, sget: b << uint(j&63), sget1: b}
+			if o != wo {
+				return fmt.Sprintf("probe %d: %+v", j, o), fmt.Sprintf("probe %d: %+v", j, wo)
+			}
+		}
+	}
+	for _, j := range []int32{-1 << 31, -1<<31 + 1, -1} {
+		if o := probe(w, j, false); o != (c12Probe{}) {
+			return fmt.Sprintf("probe %d: %+v", j, o), fmt.Sprintf("probe %d: %+v", j, c12Probe{})
+		}
+	}
+	if withToArray {
+		arr, p2 := toArray(w)
+		ga := "[]"
+		if len(arr) > 0 {
+			ga = fmt.Sprint(arr)
+		}
+		if p2 != "" || ga != wantBits {
+			return "ToArray(Of): " + p2 + clipS(ga), "ToArray(Of): " + wantBits
+		}
+	}
+	return "ok", "ok"
+}
+
+type c12Giant struct {
+	pos     []int32
+	hasN    bool
+	n       int32
+	toArray bool
+}
+
+func c12Giants() []c12Giant {
+	const M = int32(1<<31 - 1)
+	return []c12Giant{
+		{[]int32{0, 1 << 30, M}, false, 0, true}, // 2^25 words, the last position an int32 can name
+		{[]int32{3, M - 64}, false, 0, true},     // 2^25-1 words
+		{[]int32{M - 65}, false, 0, false},
+		{[]int32{M - 63}, false, 0, false},
+		{[]int32{M - 1}, false, 0, false},
+		{[]int32{M}, true, -5, false},
+		{[]int32{5}, true, M - 64, false},
+		{[]int32{5}, true, M - 63, false},
+		{[]int32{5}, true, M - 62, false},
+		{[]int32{5}, true, M - 1, false},
+		{[]int32{5}, true, M, false},
+		{nil, true, M, false},
+	}
+}
+
+// c12GiantMany: OfMany and a Builder whose running offset ends 50 bits below the last int32.
+func c12GiantMany(kind string) (got, want string) {
+	const M = int32(1<<31 - 1)
+	want = fmt.Sprintf("%d words with bits [1 %d]", (int64(M)-50+63)/64, int64(M)-100+7)
+	switch kind {
+	case "OfMany":
+		w, p := ofMany([][]int32{{1}, {7}}, []int32{M - 100, 50})
+		if p != "" {
+			return p, want
+		}
+		return fmt.Sprintf("%d words with bits %v", len(w), c12SparseBits(w)), want
+	default:
+		var w []uint64
+		var off int32
+		p := func() (p string) {
+			defer func() {
+				if e := recover(); e != nil {
+					p = fmt.Sprint("panic: ", e)
+				}
+			}()
+			b := bitmap.NewBuilder(0)
+			b.Extend([]int32{1}, M-100)
+			b.Extend([]int32{7}, 50)
+			w, off = b.Words, b.Offset
+			return ""
+		}()
+		if p != "" {
+			return p, want
+		}
+		// a Builder only promises enough words for every bit; trailing zero words are allowed
+		need := (int64(M) - 50 + 63) / 64
+		if int64(len(w)) < need || off != M-50 {
+			return fmt.Sprintf("%d words, Offset %d", len(w), off), fmt.Sprintf("at least %d words, Offset %d", need, M-50)
+		}
+		return fmt.Sprintf("enough words with bits %v", c12SparseBits(w)), fmt.Sprintf("enough words with bits [1 %d]", int64(M)-100+7)
+	}
+}
+
 func c12Judge(kind string, cs c12Case) (got, want string) {
+	switch kind {
+	case "OfGiant":
+		return c12GiantOne(cs.Pos, cs.HasN, cs.N, cs.Probe == 1)
+	case "OfManyGiant":
+		return c12GiantMany("OfMany")
+	case "BuilderGiant":
+		g, w := c12GiantMany("Builder")
+		return g, w
+	}
 	switch kind {
 	case "Of":
 		g, w, _ := c12OfOne(cs.Pos, cs.HasN, cs.N, nil)
